@@ -7,7 +7,7 @@ from .common import h, rng
 ID = "C08"
 LEVEL = "exploration"
 BUILDS = ["rel"]
-BUDGET_S = {"quick": 150, "thorough": 3000}
+BUDGET_S = {"quick": 600, "thorough": 3000}
 MAXLEN = {"quick": 4, "thorough": 5}
 EXHAUSTIVE = {"quick": "all line sequences of length <=4 over the alphabet x the pattern family",
               "thorough": "all line sequences of length <=5 over the alphabet x the pattern family"}
